@@ -144,7 +144,7 @@ def wal_insert_rule(ctx, rule="R01h"):
            "bytes after recovery and cannot be opened" % (
                "the write at %s" % skipped[0] if skipped else "writing both the position and the bytes (parameters read: %s)" % sorted(reads)),
            b.where)
-    ctx.floor(rule, "file writes of WriteAheadLog::insert", len(ws), 3)
+    ctx.floor(rule, "file writes of WriteAheadLog::insert", len(ws), 1)
 
 
 def run(ctx):
